@@ -404,10 +404,14 @@ func (l *linear) recognizeBE() {
 	xs := map[string]*Term{}
 	ratios := map[string]*big.Int{}
 	for key, a := range l.atom {
-		if a.Op != "mod" || !a.Args[1].IsInt() || a.Args[1].I.Cmp(big.NewInt(256)) != 0 {
+		var x *Term
+		if a.Op == "mod" && a.Args[1].IsInt() && a.Args[1].I.Cmp(big.NewInt(256)) == 0 {
+			x = a.Args[0]
+		} else if a.Op == "div" && isByteTerm(a) {
+			x = a // a byte-bounded quotient equals its own residue mod 256
+		} else {
 			continue
 		}
-		x := a.Args[0]
 		k := 0
 		if x.Op == "div" && x.Args[1].IsInt() {
 			sh, ok := log2(x.Args[1].I)
